@@ -75,8 +75,11 @@ def replay(tid, cons, styles_by_rank, rounds, rng, variant_override=None):
             votes = {c: {"v": 0.5 + (pos + 1) / 256, "junk": rng.random() if variant_votes else 1} for c in styles[pos]}
             if variant_votes and rng.random() < 0.5:
                 votes["unaudited"] = {"x": 1}
+            blank = variant_votes and rng.random() < 0.3
+            if blank:           # listed contests with no selections at all, as blank cards and style-aware phantoms have
+                votes = {c: {} for c in votes}
             out.append(CVR(id=f"1-1-{pos}" if not variant_votes else f"9-9-{pos}x", votes=votes,
-                           phantom=(variant_votes and False), card_in_batch=pos,
+                           phantom=(blank and rng.random() < 0.5), card_in_batch=pos,
                            sample_num=base + stride * rank_of_pos[pos]))
         return out
     cvrs = mk_cards(False)
@@ -109,7 +112,7 @@ def replay(tid, cons, styles_by_rank, rounds, rng, variant_override=None):
                                      "n_winners": 1, "candidates": ["A", "B"], "winner": ["A"],
                                      "audit_type": Audit.AUDIT_TYPE.CARD_COMPARISON, "use_style": True,
                                      "sample_size": 0})
-            tst = NonnegMean(**test_cfgs[c], u=4 / 3, N=ncards, t=0.5)
+            tst = NonnegMean(**test_cfgs[c], u=rng.choice([4 / 3, 1]), N=ncards, t=0.5)   # set_p_values installs 4/3
             asn = Assertion(contest=con, winner="A", loser="B",
                             assorter=Assorter(contest=con, assort=lambda cv, cid=c: cv.votes[cid]["v"], upper_bound=1),
                             margin=0.5, test=tst, p_value=1, p_history=[], proved=False)
